@@ -33,18 +33,20 @@ type Behaviour struct {
 
 // Case is one controlled execution.
 type Case struct {
-	C      *Ctl
-	Cfg    Cfg
-	ch     *ConnH
-	nwire  int
-	Trace  []Event // internal trace lines (act, args, post)
-	rng    *rand.Rand
-	Drift  string
-	late   map[int]bool // requests whose implementation call returned without answering
-	answered map[int]bool
+	C         *Ctl
+	Cfg       Cfg
+	ch        *ConnH
+	nwire     int
+	Trace     []Event // internal trace lines (act, args, post)
+	rng       *rand.Rand
+	Drift     string
+	late      map[int]bool // requests whose implementation call returned without answering
+	answered  map[int]bool
 	extraDone map[int]bool
-	kinds  map[int]string
-	Closed bool
+	kinds     map[int]string
+	Closed    bool
+	written   map[int]bool // requests whose reply the send goroutine has started to write
+	noTrace   bool         // stop logging internal trace lines (after out-of-model probe traffic)
 }
 
 func toInt(v any) int {
@@ -89,6 +91,9 @@ func (k *Case) post() Event {
 }
 
 func (k *Case) logStep(act string, args ...any) {
+	if k.noTrace {
+		return
+	}
 	if args == nil {
 		args = []any{}
 	}
@@ -228,6 +233,7 @@ func (k *Case) Do(step []any) error {
 		}
 		err = c.Grant("send_got", p.Req)
 		if err == nil {
+			k.written[p.Req] = true
 			k.logStep("SWrite")
 		}
 		return err
@@ -329,7 +335,7 @@ func (k *Case) enabledSteps() [][]any {
 		case "resp_post":
 			out = append(out, []any{"RPost", 0, p.Req})
 		case "resp_enq":
-			if !senderBusy || k.Cfg.Maxpend > 0 || k.flushedAtRespond(p.Req) {
+			if !senderBusy || k.Cfg.Maxpend > 0 {
 				out = append(out, []any{"REnq", 0, p.Req})
 			}
 		case "resp_next":
@@ -459,7 +465,7 @@ func RunCase(t *testing.T, lg *go9p.Logger, cfg Cfg, seed int64, fn func(k *Case
 		c.Start(srv, ops)
 		defer c.Stop()
 		k := &Case{C: c, Cfg: cfg, rng: rand.New(rand.NewSource(seed)), late: map[int]bool{}, answered: map[int]bool{},
-			extraDone: map[int]bool{}, kinds: map[int]string{}}
+			extraDone: map[int]bool{}, kinds: map[int]string{}, written: map[int]bool{}}
 		kk = k
 		k.ch = c.NewConn()
 		k.ch.Dotu = cfg.Dotu
@@ -497,12 +503,12 @@ type Violation struct {
 }
 
 type Report struct {
-	Engine       string      `json:"engine"`
-	Cases        int         `json:"cases"`
-	Distinct     int         `json:"distinct"`
-	Samples      []any       `json:"samples"`
-	Violations   []Violation `json:"violations"`
-	Inconclusive []string    `json:"inconclusive"`
+	Engine       string         `json:"engine"`
+	Cases        int            `json:"cases"`
+	Distinct     int            `json:"distinct"`
+	Samples      []any          `json:"samples"`
+	Violations   []Violation    `json:"violations"`
+	Inconclusive []string       `json:"inconclusive"`
 	Stats        map[string]any `json:"stats"`
 }
 
@@ -544,12 +550,96 @@ func ReadBehaviours(path string) ([]Behaviour, error) {
 	return out, sc.Err()
 }
 
+// Out collects what an engine writes per case; each case is flushed as soon as it ends, and the id
+// of the case being run is kept in a progress file, so that when the server under test panics (and
+// takes the test process with it) the driver can attribute the crash and restart after that case.
+type Out struct {
+	tw, ew, bw *NDWriter
+	Start      int
+	prog       string
+}
+
+func OpenOut() *Out {
+	o := &Out{Start: envInt("VERIF_START", 0), prog: os.Getenv("VERIF_PROGRESS")}
+	app := o.Start > 0
+	o.tw = newNDWriter(os.Getenv("VERIF_TRACE_OUT"), app)
+	o.ew = newNDWriter(os.Getenv("VERIF_EXT_OUT"), app)
+	o.bw = newNDWriter(os.Getenv("VERIF_BEH_OUT"), app)
+	return o
+}
+
+// Skip reports whether the case was already done by an earlier (crashed) run of the engine.
+func (o *Out) Skip(id int) bool { return id < o.Start }
+
+func (o *Out) Begin(id int) {
+	if o.prog != "" {
+		_ = os.WriteFile(o.prog, []byte(fmt.Sprint(id)), 0o644)
+	}
+}
+
+func (o *Out) End(id int, k *Case, left string, steps any) {
+	if k != nil {
+		o.tw.Put(Event{"act": "Reset", "case": id, "args": []any{}})
+		for _, e := range k.Trace {
+			o.tw.Put(e)
+		}
+		o.ew.Put(Event{"ev": "reset", "case": id})
+		for _, e := range k.C.Events {
+			o.ew.Put(e)
+		}
+		if left != "" {
+			o.ew.Put(Event{"ev": "leftover", "what": left})
+		}
+		if k.Drift != "" {
+			o.ew.Put(Event{"ev": "note", "what": "drift: " + k.Drift})
+		}
+	}
+	if steps != nil {
+		o.bw.Put(map[string]any{"id": id, "steps": steps})
+	}
+	o.tw.Flush()
+	o.ew.Flush()
+	o.bw.Flush()
+}
+
+func (o *Out) Close() { o.tw.Close(); o.ew.Close(); o.bw.Close() }
+
+func newNDWriter(path string, app bool) *NDWriter {
+	if path == "" {
+		path = os.DevNull
+	}
+	flags := os.O_CREATE | os.O_WRONLY | os.O_TRUNC
+	if app {
+		flags = os.O_CREATE | os.O_WRONLY | os.O_APPEND
+	}
+	f, err := os.OpenFile(path, flags, 0o644)
+	if err != nil {
+		panic(err)
+	}
+	return &NDWriter{f: f, w: bufio.NewWriterSize(f, 1<<20)}
+}
+
+func (n *NDWriter) Flush() { n.w.Flush() }
+
+func envInt(name string, def int) int {
+	if s := os.Getenv(name); s != "" {
+		var v int
+		if _, err := fmt.Sscan(s, &v); err == nil {
+			return v
+		}
+	}
+	return def
+}
+
 type NDWriter struct {
 	f *os.File
 	w *bufio.Writer
 }
 
 func NewNDWriter(path string) (*NDWriter, error) {
+	if path == "" {
+		path = os.DevNull
+	}
 	f, err := os.Create(path)
 	if err != nil {
 		return nil, err
